@@ -43,7 +43,7 @@ def exhaustive(ctx, max_n):
     for n in range(1, max_n + 1):
         plans = list(itertools.permutations(range(n)))
         if n == max_n:
-            plans = plans[:1] + [p for p in plans[1:] if ctx.tier == 'thorough' or ctx.rng.random() < 0.25]
+            plans = plans[:1] + [p for p in plans[1:] if (ctx.tier == 'thorough' or ctx.rng.random() < 0.25) and ctx.rng.random() < K.SCALE + 1e-9]
         for plan in plans:
             for pools in itertools.product(range(7), repeat=n):
                 sc = base(n, plan, pools)
@@ -94,7 +94,7 @@ def run(ctx):
     tg = targeted(ctx)
     items += tg
     ctx.count('source', 'explicit_target', len(tg))
-    rd = randoms(ctx, 800 if ctx.tier == 'quick' else 20000)
+    rd = randoms(ctx, int((800 if ctx.tier == 'quick' else 6000) * K.SCALE))
     items += rd
     ctx.count('source', 'random_history', len(rd))
     ctx.exhaustive = True
